@@ -1,10 +1,10 @@
 from dataclasses import dataclass, field
 
 from kirin import ir, rewrite
+from kirin.dialects import func
 from kirin.dialects.py import Constant
 from kirin.ir.nodes.stmt import Statement
 from kirin.passes import Fold, Pass
-from kirin.passes.callgraph import CallGraphPass
 from kirin.rewrite.abc import RewriteResult, RewriteRule
 
 from bloqade.shuttle.arch import ArchSpec
@@ -49,6 +49,57 @@ class InjectSpecRule(RewriteRule):
         return RewriteResult()
 
 
+def _closure_constant(node: Statement) -> ir.Method | None:
+    """the method held by a constant (a closure without captures that folding lifted)."""
+    if isinstance(node, Constant) and isinstance(node.value, ir.PyAttr):
+        if isinstance(node.value.data, ir.Method):
+            return node.value.data
+    return None
+
+
+def _reachable_methods(mt: ir.Method) -> list[ir.Method]:
+    """`mt` and every method it can reach through calls, closure constants and captured closures."""
+    seen: dict[ir.Method, None] = {}
+    todo = [mt]
+    while todo:
+        current = todo.pop()
+        if current in seen:
+            continue
+        seen[current] = None
+        todo.extend(value for value in current.fields if isinstance(value, ir.Method))
+        for stmt in current.callable_region.walk():
+            if isinstance(stmt, func.Invoke):
+                todo.append(stmt.callee)
+            elif (closure := _closure_constant(stmt)) is not None:
+                todo.append(closure)
+    return list(seen)
+
+
+@dataclass
+class _RetargetMethods(RewriteRule):
+    new_methods: dict[ir.Method, ir.Method]
+
+    def rewrite_Statement(self, node: Statement) -> RewriteResult:
+        if isinstance(node, func.Invoke):
+            if (new_callee := self.new_methods.get(node.callee)) is None:
+                return RewriteResult()
+            node.replace_by(
+                func.Invoke(
+                    inputs=node.inputs,
+                    callee=new_callee,
+                    purity=node.purity,
+                    kwargs=node.kwargs,
+                )
+            )
+            return RewriteResult(has_done_something=True)
+        elif (closure := _closure_constant(node)) is not None:
+            if (new_closure := self.new_methods.get(closure)) is None:
+                return RewriteResult()
+            node.replace_by(Constant(new_closure))
+            return RewriteResult(has_done_something=True)
+        return RewriteResult()
+
+
 @dataclass
 class InjectSpecsPass(Pass):
     arch_spec: ArchSpec
@@ -62,9 +113,27 @@ class InjectSpecsPass(Pass):
         # since we're rewriting `mt` inplace we should make sure it is on the visited list
         # so that recursive calls are handed correctly
         rule = rewrite.Walk(InjectSpecRule(self.arch_spec))
-        result = CallGraphPass(self.dialects, rule, no_raise=self.no_raise).unsafe_run(
-            mt
-        )
+        result = RewriteResult()
+        # `mt` is rewritten in place, everything it reaches is copied first. Closures
+        # that folding turned into constants are reached too, and every copy is
+        # pointed at the copies before anything is folded.
+        new_methods: dict[ir.Method, ir.Method] = {}
+        for original in _reachable_methods(mt):
+            new_mt = original if original is mt else original.similar()
+            result = rule.rewrite(new_mt.code).join(result)
+            new_methods[original] = new_mt
+
+        if result.has_done_something:
+            retarget = rewrite.Walk(_RetargetMethods(new_methods))
+            for new_mt in new_methods.values():
+                retarget.rewrite(new_mt.code)
+                new_mt.fields = tuple(
+                    new_methods.get(value, value) if isinstance(value, ir.Method) else value
+                    for value in new_mt.fields
+                )
+            for new_mt in new_methods.values():
+                self.fold_pass(new_mt)
+
         if self.fold:
             result = self.fold_pass(mt).join(result)
 
